@@ -95,6 +95,39 @@ type c18State struct {
 	adv     int  // polls that advanced the position
 	pages   int  // pages compared
 	goneObs bool // a read of a page whose file left the replica has been observed failing in this history
+	gate    *c18Gate
+}
+
+// c18Gate wraps the VFS's replica client: when armed, the next level-0 listing with a seek position (a poll's
+// listing) parks until released (operation VPTT).
+type c18Gate struct {
+	litestream.ReplicaClient
+	mu      sync.Mutex
+	armed   bool
+	reached chan struct{}
+	release chan struct{}
+}
+
+func (g *c18Gate) arm() {
+	g.mu.Lock()
+	g.armed, g.reached, g.release = true, make(chan struct{}), make(chan struct{})
+	g.mu.Unlock()
+}
+
+func (g *c18Gate) LTXFiles(ctx context.Context, level int, seek ltx.TXID, useMetadata bool) (ltx.FileIterator, error) {
+	g.mu.Lock()
+	park := g.armed && level == 0 && seek > 0
+	var reached, release chan struct{}
+	if park {
+		g.armed = false
+		reached, release = g.reached, g.release
+	}
+	g.mu.Unlock()
+	if park {
+		close(reached)
+		<-release
+	}
+	return g.ReplicaClient.LTXFiles(ctx, level, seek, useMetadata)
 }
 
 func (st *c18State) add(kind, detail string) {
@@ -164,7 +197,8 @@ func (st *c18State) do(s *scn.Scn, op string) bool {
 		if st.f != nil {
 			return false
 		}
-		client := file.NewReplicaClient(s.ReplicaDir)
+		client := &c18Gate{ReplicaClient: file.NewReplicaClient(s.ReplicaDir)}
+		st.gate = client
 		// A read-only VFSFile.Open waits (PollInterval) as long as no restore plan exists: not an open point.
 		if _, err := litestream.CalcRestorePlan(ctx, client, 0, time.Time{}, slog.Default()); err != nil {
 			if errors.Is(err, litestream.ErrTxNotAvailable) {
@@ -196,6 +230,57 @@ func (st *c18State) do(s *scn.Scn, op string) bool {
 			return false
 		}
 		st.poll(s, op)
+		return true
+	case "VPTT":
+		// A poll with time travel switched on in the middle of it: the poll is parked at its level-0 listing,
+		// SetTargetTime(T) completes (T = a candidate time in the middle of the replica's history), the poll is
+		// released and finishes. The view must then be the timestamp restore for T, whatever the poll found.
+		// One fixed interleaving, joined before the operation returns.
+		if st.f == nil || st.locked || st.gate == nil {
+			return false
+		}
+		Ts, ts, terr := c18Times(s, st.arch)
+		if terr != nil || len(Ts) == 0 {
+			return false
+		}
+		T := Ts[len(Ts)/2]
+		tt := time.UnixMilli(T).UTC()
+		want, rerr := s.Restore(scn.RestoreOpt{Timestamp: tt})
+		if rerr != nil {
+			return false
+		}
+		st.gate.arm()
+		pollDone := make(chan error, 1)
+		go func() { pollDone <- st.f.VerifPoll(ctx) }()
+		select {
+		case <-st.gate.reached:
+		case perr := <-pollDone:
+			// the poll did not list level 0 (nothing to park on): plain poll
+			st.gate.mu.Lock()
+			st.gate.armed = false
+			st.gate.mu.Unlock()
+			_ = perr
+			c18Record(s, op, "ok noqueue")
+			st.view = st.f.Pos().TXID
+			st.lastPos = st.view
+			st.check(s, "poll")
+			return true
+		}
+		verr := st.f.SetTargetTime(ctx, tt)
+		close(st.gate.release)
+		<-pollDone
+		if verr != nil {
+			st.add("vfs-tt-availability-differs", fmt.Sprintf("T=%s: restore succeeds, SetTargetTime during a poll: %v", relT(T, ts), verr))
+		} else {
+			st.compare(s, want, "tt-", fmt.Sprintf("time travel to T=%s set while a poll was in flight (pos %d)", relT(T, ts), st.f.Pos().TXID))
+		}
+		if err := st.f.ResetTime(ctx); err != nil {
+			st.add("vfs-tt-reset-failed", scn.ErrClass(err))
+		}
+		pos := st.f.Pos().TXID
+		st.lastPos, st.view = pos, pos
+		c18Record(s, op, fmt.Sprintf("ok pos=%d", pos))
+		st.check(s, "after ResetTime")
 		return true
 	case "VLOCK":
 		if st.f == nil || st.locked {
@@ -869,6 +954,8 @@ func c18(args []string) int {
 		{Name: "seeded/4096-none/cache1", Cfg: n4096, Cache: one(n4096), Alphabet: aPoll, Depth: d(2, 3), Seeds: sNone},
 		{Name: "polls/512-none/cache-default", Cfg: n512, Alphabet: aPoll, Depth: d(3, 5), Seeds: sPoll},
 		{Name: "polls/512-incr/cache1", Cfg: i512, Cache: one(i512), Alphabet: aPollI, Depth: d(3, 5), Seeds: sPoll},
+		{Name: "time-travel/512-none/set-during-poll", Cfg: n512, Alphabet: sub("VPTT W1 SW VPOLL"), Depth: d(2, 3),
+			Seeds: seeds("W1 SW W1 SW W1 SW VOPEN W1 SW W1 SW", "W1 SW W3 SW VOPEN D VAC SW W1 SW")},
 		{Name: "time-travel/512-none", Cfg: n512, Cache: one(n512), TT: true, Alphabet: aTT, Depth: d(1, 3), Seeds: sTT},
 		{Name: "time-travel/512-incr/l0-pruned", Cfg: i512p, TT: true, Alphabet: aTTI, Depth: d(1, 3), Seeds: sTTI},
 		{Name: "locked/512-incr/cache1", Cfg: i512, Cache: one(i512), Alphabet: aLock, Depth: d(3, 4), Seeds: sLock},
